@@ -251,9 +251,12 @@ prop(
     "missing default mapping, non-decimal note numbers) must yield an error. Note numbers with leading zeros: if accepted they mean the "
     "decimal number. TestC10Files: the file is written to one fixed path, loaded with LoadDeviceConfigs, saved again in place with a second "
     "version of exactly the same length (mapping name in other letter case, or an invalid default channel) and loaded again: each load must "
-    "equal ParseData of the text that is in the file at that moment, an invalid version is not served. Non-trivial = an axis with an optional field, or any invalidation; distinct by case hash.",
+    "equal ParseData of the text that is in the file at that moment, an invalid version is not served. TestC10Hostile: the hostile-text "
+    "generator of C09 with the input-independent reject-side oracle (whatever is accepted holds only values inside the MIDI ranges and an "
+    "existing default mapping). Non-trivial = an axis with an optional field, or any invalidation; distinct by case hash.",
     [dict(test="TestC10", shards=16, checks_quick=12000, checks_thorough=120000),
-     dict(test="TestC10Files", shards=16, checks_quick=600, checks_thorough=8000)],
+     dict(test="TestC10Files", shards=16, checks_quick=600, checks_thorough=8000),
+     dict(test="TestC10Hostile", shards=16, checks_quick=6000, checks_thorough=60000)],
     level_text="Generated-input search with an independently built expected configuration (round trip description -> text -> parser -> view) "
                "and single-field invalidations that must be rejected.",
     level_note="Trusted: the TOML emitter in desc.go (spellings limited to what TOML 1.0 defines), the view functions in c10_test.go. Not asserted: "
